@@ -1,0 +1,17 @@
+//go:build !verif
+
+package server
+
+import (
+	"context"
+	"net"
+)
+
+// Verification hooks are compiled out without the `verif` build tag.
+const verifEnabled = false
+
+func verifDial(ctx context.Context, addr string, port int) (net.Conn, bool) { return nil, false }
+
+func verifYield(site string, peer string) {}
+
+func verifTrace(ev string, peer string, arg any) {}
